@@ -228,7 +228,8 @@ const leafStepBudget = 20_000_000
 func (s *shortRS) Read(p []byte) (int, error) {
 	s.c.leafCalls++
 	if s.c.leafCalls > leafStepBudget {
-		panic("no-progress: more than 20M leaf reads in one operation")
+		// an error rather than a panic: under a context wrapper this runs on ctxreadseeker's goroutine
+		return 0, errors.New("no-progress: more than 20M leaf reads in one operation")
 	}
 	if len(p) > s.max {
 		p = p[:s.max]
